@@ -109,8 +109,9 @@ class Driver:
         if not h.alive:
             return None
         old = self.infos.get((h.name, op["svc"]["name"].lower()))
-        if op.get("mutate") and old is not None and (old.server or "").lower() == (op["svc"].get("server") or
-                                                                                   op["svc"]["name"]).lower():
+        inflight = any(e.get("info") is old and e["t_done"] is None for e in self.w.api_log if e["op"] == "register")
+        if op.get("mutate") and old is not None and not inflight and \
+                (old.server or "").lower() == (op["svc"].get("server") or op["svc"]["name"]).lower():
             # the application keeps its ServiceInfo object, changes it in place and calls update
             fresh = mk_info(op["svc"])
             info = old
